@@ -26,6 +26,9 @@ CHECKS = {
  'C13': dict(level='exploration', design='3/C13', technique='online trace monitor (sequential model of the async service) over exhaustive short and random long schedules on a simulated socket layer with a virtual clock',
    text='Schedules over {add, run, valid/duplicate/reordered/early reply, unknown id, stale id generation, bad MAC, error status, error PDU, pushed config, partial delivery, close/reset, refused connect, would-block on send, clock advance} drive the real asynchronous TCP service; every request has a unique tag and hash. The monitor checks online: returned exactly once and in a final state; a response only if an authentic status-0 reply with its own id was put on the wire, with its own id and a signature for its own hash; an error only if a justifying event (service status, error PDU, malformed/unauthenticated data, close/reset/refusal, elapsed timeout) occurred; cache-full iff outstanding = cache size; pending+received and the waiting count equal the number of outstanding requests; the request byte stream on every connection is a sequence of whole, authentic request PDUs; bounded progress after faults stop. Exhaustive for all schedules of length 3 (quick) / 4 (thorough) after an add, random schedules up to 200 steps with cache sizes 1..64.',
    note='Justifying events are attributed liberally (a fault on the connection justifies an error of any request outstanding until the client has worked the faulty PDUs off), so the monitor is sound but not tight for error causes. HTTP async service is exercised at request granularity in C07/C08/C06.'),
+ 'C09': dict(level='exploration', design='3/C09', technique='differential runtime monitor: three libksi TLV codecs vs an independent in-process reference codec under ASan/UBSan with poisoned guards; exhaustive header prefixes and buffer sizes',
+   text='The tree codec, the element codec and the header reader are driven in-process against an independent reference codec: all 65536 two-byte prefixes x input lengths, payload lengths 0..300 and 65530..65540 in both header forms, nested trees to depth 6 including content totals of exactly 65535/65536/65537, every output buffer size from 0 to needed+8 (exactly sized heap buffers with a poisoned left guard), every truncation and +-1/+-256 length perturbation of valid encodings, stream readers over fmemopen/socketpair (consumed count). Held = byte-exact agreement, oversize content refused, mis-sized input refused, no sanitizer report.',
+   note='Trusts the reference codec in harness/c09_tlv.c. Non-canonical but well-sized encodings may be accepted or refused. Socket reader is not driven with EAGAIN/partial schedules here (C14 does that).'),
 }
 NOT_YET = 'check not built yet in this session (planned in DESIGN.md section 3)'
 
